@@ -280,6 +280,17 @@ class Interp:
         return v
 
     def _external(self, module: str, attr: str):
+        if f"{module}.{attr}" in self.external:
+            return PyCallable(self.external[f"{module}.{attr}"])
+        if module == "collections" and attr == "defaultdict":
+            def _dd(it, a, k):
+                d = {"__default_factory__": a[0] if a else None}
+                if len(a) > 1:
+                    d.update(a[1])
+                return d
+            return PyCallable(_dd)
+        if module == "operator" and attr in ("matmul",):
+            return Builtin("operator." + attr)
         if module == "math" or module.startswith("math"):
             if attr in MATH_FUNCS:
                 return Builtin("math." + attr)
@@ -483,7 +494,7 @@ class Interp:
         if isinstance(f, PyCallable):
             return f.fn(self, args, kwargs)
         if isinstance(f, Unknown):
-            return Unknown(f"call of {f.why}")
+            raise Undecided(f"call of an unknown callable ({f.why}): its effect on the arguments is not known")
         raise Undecided(f"call of non-callable {f!r}")
 
     def call_closure(self, clo: Closure, args, kwargs):
@@ -1346,6 +1357,8 @@ class Interp:
             return simplify_num(fn_atom("round", *a))
         if name == "float":
             x = a[0]
+            if isinstance(x, Ext) and hasattr(x, "sym_float"):
+                return x.sym_float(self)
             if isinstance(x, str):
                 try:
                     return simplify_num(RF.of(Fraction(x))) if x.strip() else (_ for _ in ()).throw(ValueError())
@@ -1645,6 +1658,53 @@ class Outcome:
 
     def cond_text(self):
         return " & ".join((repr(c) if v else f"not({c!r})") for c, v in self.decisions) or "true"
+
+    def equalities(self) -> Dict[str, Any]:
+        """Symbol -> constant bindings implied by the conditions decided on this path: `x == c` taken true,
+        `not (x != c)`, and `abs(x) <= tiny` taken true (an exact-arithmetic reading of almost_equal(x, 0))."""
+        out: Dict[str, Any] = {}
+
+        def pos(c):
+            if not isinstance(c, Cond):
+                return
+            if c.op == "and":
+                for a in c.args:
+                    pos(a)
+            elif c.op == "not":
+                neg(c.args[0])
+            elif c.op == "==":
+                a, b = c.args
+                if is_num(a) and is_num(b):
+                    diff = to_rf(a) - to_rf(b)
+                    if diff.d.is_const():
+                        terms = diff.n.canon().t
+                        syms = [m for m in terms if m != ()]
+                        if len(syms) == 1 and len(syms[0]) == 1 and syms[0][0][1] == 1 and isinstance(syms[0][0][0], str):
+                            # k*x + c0 == 0  =>  x = -c0/k
+                            out[syms[0][0][0]] = -terms.get((), Fraction(0)) / terms[syms[0]]
+            elif c.op == "<=":
+                a, b = c.args
+                if is_num(a) and is_num(b) and to_rf(b).is_const() and abs(to_rf(b).const_value()) < Fraction(1, 1000):
+                    ra = to_rf(a)
+                    if ra.d.is_const() and len(ra.n.t) == 1:
+                        (m, co), = ra.n.t.items()
+                        if len(m) == 1 and isinstance(m[0][0], tuple) and m[0][0][0] == "abs" and m[0][1] == 1:
+                            inner = m[0][0][1]
+                            if isinstance(inner, str) and inner.isidentifier():
+                                out[inner] = 0
+
+        def neg(c):
+            if isinstance(c, Cond) and c.op == "or":
+                for a in c.args:
+                    neg(a)
+            elif isinstance(c, Cond) and c.op == "not":
+                pos(c.args[0])
+            elif isinstance(c, Cond) and c.op == "!=":
+                pos(Cond("==", c.args))
+
+        for c, v in self.decisions:
+            (pos if v else neg)(c)
+        return out
 
 
 def explore(repo: Repo, fn, args: list, kwargs: Optional[dict] = None, max_paths=256,
